@@ -29,10 +29,12 @@ var vWRandSource func(int64) int64
 type vWRandPin struct {
 	queue []int64 // values returned by successive calls (0 when exhausted)
 	bound int64   // argument of the last call, -1 if not called
+	calls int64   // number of calls since the last set
 }
 
 func (p *vWRandPin) fn(n int64) int64 {
 	p.bound = n
+	p.calls++
 	var r int64
 	if len(p.queue) > 0 {
 		r = p.queue[0]
@@ -48,7 +50,7 @@ func (p *vWRandPin) fn(n int64) int64 {
 	return r
 }
 
-func (p *vWRandPin) set(rs ...int64) { p.queue = rs; p.bound = -1 }
+func (p *vWRandPin) set(rs ...int64) { p.queue = rs; p.bound = -1; p.calls = 0 }
 
 type vWRandInner struct{ fail bool }
 
@@ -202,7 +204,9 @@ func vWRandExec(cfg []int64, ops [][]int64) ([][]int64, bool, []string) {
 					outstanding = append(outstanding, res.Done)
 				}
 			}
-			obs = append(obs, []int64{code, after})
+			// one dropped RPC must be one drop event: number of CallDropped calls of this Pick and
+			// number of droppers that consulted the random source
+			obs = append(obs, []int64{code, after, int64(len(ls.dropped)), pin.calls})
 			if code == 2 {
 				tags["cb-drop"] = true
 				nt = true
@@ -303,10 +307,12 @@ func vWRandGen(r *vRand, tier string, idx int) ([]int64, [][]int64) {
 		}
 	case idx == 2:
 		// circuit breaking with tiny limits, READY and not READY, inner failures, drops 100%/0%
-		cfg = []int64{0, 100, 50, 100}
+		// three categories (50%, 50%, 30%); with random values (0,0,0) all three fire on the same
+		// pick, with (1,0,0) the last two, with (1,1,7) none
+		cfg = []int64{50, 100, 50, 100, 30, 100}
 		for _, mx := range []int64{0, 1, 2, 3} {
 			for i := 0; i < 6; i++ {
-				ops = append(ops, []int64{5, 2, mx, int64(i % 3 / 2), 0, 1})
+				ops = append(ops, []int64{5, 2, mx, 0, int64(i % 2), 0, 0}, []int64{5, 2, mx, int64(i % 3 / 2), 1, 1, 7})
 			}
 			ops = append(ops, []int64{5, 1, mx, 0, 0, 0}, []int64{5, 2, mx, 0, 0, 0})
 			for i := 0; i < 5; i++ {
